@@ -7,7 +7,7 @@ import io
 import numpy as np
 
 from . import engine as eng
-from .engine import smax, smin, sand, sor, snot, is_poison, Sym
+from .engine import smax, smin, sand, sor, snot, simplies, is_poison, Sym
 
 
 def E_():
